@@ -133,6 +133,10 @@ func loadSampleModel(repo, name string) (*sampleModel, error) {
 	if err != nil {
 		return nil, err
 	}
+	return sampleModelFrom(name, m)
+}
+
+func sampleModelFrom(name string, m *gonnx.Model) (*sampleModel, error) {
 	sm := &sampleModel{name: name, model: m, inShapes: map[string][]int{}, inBatch: map[string]int{}, outBatch: map[string]int{}}
 	params := map[string]bool{}
 	for _, p := range m.ParamNames() {
@@ -387,13 +391,40 @@ func recordConc(rec *recorder, rng *rand.Rand, trials int, repo string) int {
 		rec.emit(e)
 		mu.Unlock()
 	}
+	type namedModel struct {
+		name  string
+		bytes []byte
+	}
+	var models []namedModel
 	for _, name := range []string{"mlp", "gru", "ndm", "scaler"} {
-		sm, err := loadSampleModel(repo, name)
+		b, err := os.ReadFile(repo + "/sample_models/onnx_models/" + name + ".onnx")
 		if err != nil {
 			fmt.Fprintln(os.Stderr, "record conc:", err)
 			return 2
 		}
-		modelBytes, _ := os.ReadFile(repo + "/sample_models/onnx_models/" + name + ".onnx")
+		models = append(models, namedModel{name, b})
+	}
+	// generated models covering the operator families that read weights or decode tensors while running
+	for _, sm := range synthModels(rng) {
+		b, err := buildModel(sm.m)
+		if err != nil {
+			fmt.Fprintln(os.Stderr, "record conc: synthetic model", sm.name, err)
+			return 2
+		}
+		models = append(models, namedModel{sm.name, b})
+	}
+	for _, nm := range models {
+		name, modelBytes := nm.name, nm.bytes
+		m, err := gonnx.NewModelFromBytes(modelBytes)
+		if err != nil {
+			fmt.Fprintln(os.Stderr, "record conc:", name, err)
+			return 2
+		}
+		sm, err := sampleModelFrom(name, m)
+		if err != nil {
+			fmt.Fprintln(os.Stderr, "record conc:", err)
+			return 2
+		}
 		// a pool of inputs with their sequential baseline
 		nKeys := 6
 		pool := make([][]map[string][]float32, nKeys)
